@@ -21,8 +21,8 @@ def sh(cmd, cwd=None, env=None):
 def main():
     d = sys.argv[1]
     checks = sys.argv[2:]
-    scratch = '/var/tmp/omega_benign_scratch'
-    for patch in sorted(glob.glob(os.path.join(d, 'refactor_*.diff'))):
+    scratch = f'/var/tmp/omega_benign_scratch_{os.getpid()}'
+    for patch in sorted(glob.glob(os.path.join(d, 'refactor_*.diff')) + glob.glob(os.path.join(d, 'change_*.diff'))):
         sh(f'rm -rf {scratch}; mkdir -p {scratch}')
         sh(f'git -C /repo archive HEAD | tar -x -C {scratch}')
         rc, out = sh(f'git apply {patch}', cwd=scratch)
